@@ -278,6 +278,48 @@ static void collisions_workload(Harness& H, bool thorough)
       ctx().count("equal_hash_prefix_chains_verified", nested_ok);
       if (nested_bad) ctx().inconclusive("equal-hash prefix generator does not match this platform's std::hash (" + std::to_string(nested_bad) + " chains)");
    }
+   // ordinary 16-byte words with the same hash code as a reserved word (and as a few ordinary short words): the bucket of a
+   // process-wide word's hash is then not empty.  Interned before and after the word they collide with, in both orders.
+   {
+      constexpr std::uint64_t SEED = 0xc70f6907UL;
+      static const std::uint64_t IM = inv_mul();
+      auto prefinal = [&](const std::string& w) {                 // hash state before the final mixing (a bijection)
+         std::uint64_t h = SEED ^ (std::uint64_t(w.size()) * MUL);
+         std::size_t i = 0;
+         for (; i + 8 <= w.size(); i += 8) { std::uint64_t k; std::memcpy(&k, w.data() + i, 8); h = (h ^ f(k)) * MUL; }
+         if (w.size() & 7) { std::uint64_t t = 0; for (std::size_t j = w.size(); j-- > i; ) t = (t << 8) + static_cast<unsigned char>(w[j]); h ^= t; h *= MUL; }
+         return h;
+      };
+      auto collider = [&](const std::string& target, std::uint64_t first) {
+         const std::uint64_t want = prefinal(target);
+         const std::uint64_t h1 = ((SEED ^ (16 * MUL)) ^ f(first)) * MUL;
+         const std::uint64_t second = finv((want * IM) ^ h1);
+         std::string c(16, '\0'); std::memcpy(c.data(), &first, 8); std::memcpy(c.data() + 8, &second, 8);
+         return c;
+      };
+      std::vector<std::string> targets;
+      for (auto w : reserved_words) targets.push_back(narrow(w));
+      for (auto w : { "x", "main", "size_type", "operator+", "a_longer_ordinary_identifier" }) targets.push_back(w);
+      impl::Lexicon elsewhere;                                     // reserved words are the same nodes in every Lexicon
+      std::hash<util::word_view> hs;
+      long long ok = 0, bad = 0; int i = 0;
+      for (auto& t : targets) {
+         const std::string c = collider(t, H.rng.next() | 1);
+         if (c == t || hs(widen(c)) != hs(widen(t))) { ++bad; continue; }
+         ++ok;
+         const bool is_reserved = i < int(std::size(reserved_words));
+         const String* first = nullptr;
+         if (i % 2 == 0) first = &H.intern(t, "word-with-an-equal-hash-neighbour");
+         H.intern(c, "equal-hash-neighbour-of-a-word");
+         const String& after = H.intern(t, "word-with-an-equal-hash-neighbour");
+         H.intern(c, "equal-hash-neighbour-of-a-word");
+         if (first && first != &after) ctx().viol("equal-hash-neighbour:word-changed-node", "a word maps to another node once an ordinary word with the same hash code has been interned", H.desc(t, "word-with-an-equal-hash-neighbour"));
+         if (is_reserved && &after != &elsewhere.get_string(widen(t))) ctx().viol("equal-hash-neighbour:reserved-word-lost-its-constant", "a reserved word no longer maps to its process-wide node once an ordinary word with the same hash code has been interned", H.desc(t, "word-with-an-equal-hash-neighbour"));
+         ++i;
+      }
+      ctx().count("words_given_an_equal_hash_neighbour", ok);
+      if (bad) ctx().inconclusive("equal-hash neighbour generator does not match this platform's std::hash (" + std::to_string(bad) + " words)");
+   }
    ctx().count("equal_hash_chains_verified", verified);
    if (failed) ctx().inconclusive("equal-hash generator does not match this platform's std::hash (" + std::to_string(failed) + " chains)");
    // read the real bucket chain lengths through the hook
@@ -348,7 +390,7 @@ static void body(Ctx& C)
           "all earlier Strings are re-read (address, length, bytes) and storage intervals [header,end) are checked pairwise disjoint");
    C.assume("storage interval of a dynamic word = 8-byte length header immediately before characters() (pinned layout), used only for the overlap check");
    for (auto k : { "pool_rollovers", "oversize_own_pool", "oversize_fitted_current_pool", "boundary_requests_rolled_over", "boundary_requests_fitted",
-                   "equal_hash_chains_verified", "equal_hash_prefix_chains_verified", "re_interned", "rechecks", "interval_checks", "reserved_words_checked", "interned:reserved-near-miss", "first_pool_filled_exactly" }) C.need(k);
+                   "equal_hash_chains_verified", "equal_hash_prefix_chains_verified", "words_given_an_equal_hash_neighbour", "re_interned", "rechecks", "interval_checks", "reserved_words_checked", "interned:reserved-near-miss", "first_pool_filled_exactly" }) C.need(k);
    {  // a completely empty first pool: words that fill it exactly, or miss by one byte
       for (long long n : { (1LL << 20) - 8, (1LL << 20) - 7, (1LL << 20) - 24, (1LL << 20) - 9 }) {
          Harness F(C.seed + 17 + std::uint64_t(n));
